@@ -17,6 +17,9 @@ def bin_cmd(b):
 CPUS = sorted(os.sched_getaffinity(0))
 
 
+IS_KNOWN = [lambda rec: False]   # set by run_sim_check: does a violating record match an entry of known_findings.json?
+
+
 class Worker:
     """runs one arithmetic progression of seeds, restarting the harness process after a fatal run"""
 
@@ -53,7 +56,7 @@ class Worker:
                 if rec["cls"] == "memory-error":
                     rec["detail"] = sanitizer_summary(p.stderr)
                 self.records.append(rec)
-                if rec["cls"] != "ok":
+                if rec["cls"] != "ok" and not IS_KNOWN[0](rec):   # a listed finding does not mean that the tree is broken: exploration goes on
                     ABORT[0] += 1
                 done += 1
                 last_seed = rec["seed"]
@@ -277,6 +280,14 @@ def run_sim_check(spec, args):
     binaries = spec["binaries"]
     variants = sorted(binaries)
     sig_fn = spec["signature"]
+    known0 = load_known(pid)
+
+    def is_known(rec):
+        try:
+            return match_known(known0, rec["cls"], sig_fn(rec)) is not None
+        except Exception:
+            return False
+    IS_KNOWN[0] = is_known
 
     if args.replay:
         rep = json.load(open(args.replay))
